@@ -5,6 +5,7 @@ CONSTANTS
   MaxCalls = 2
   OrderedMerge = TRUE
   ReadsLeak = FALSE
+  OrderedScan = TRUE
 INVARIANT DumpInputs
 CONSTRAINT Stop
 CHECK_DEADLOCK FALSE
